@@ -198,3 +198,57 @@ Theorem C09_model_tree_src_nx_min :
     links_typedb g c = true -> tree_certb g dp = true -> C09_on n.
 Proof. exact model_tree_C09_src_nx_min. Qed.
 Print Assumptions C09_model_tree_src_nx_min.
+
+(* Part 9: XY-routed meshes, universally (XYCdg.v).  The property's own quantifier is ID-table and source routing; the
+   same statement holds -- as a THEOREM, for every size -- for the third algorithm the generator offers: for every
+   XY description over one auto-connected m x n router array with interfaces on any ports, the routes AS EMITTED
+   (Hw.send_free: the X-then-Y decision of Hw.xy_select on the emitted, offset and width-limited coordinates, every
+   signal followed from its driver to its reader, WITHOUT relying on the router's turn masks) of all ordered pairs
+   induce an acyclic channel-dependency graph on the request and on the response network.  Proof: a rank on signals
+   (injection < +x links by column < -x links by column < +y links by row < -y links by row < ejection) that every two
+   consecutive signals of every walk raise, for EVERY target coordinate -- inside the array or not. *)
+From FV Require Import Graph Desc Build Compile Routing Emit Side XYSide XYCdg.
+Theorem C09_hw_xy_mesh :
+  forall d g c rd mm nn sp ri n xb yb ab ox oy G,
+    build d = Ok g -> compile d g = Ok c -> d_algo d = XY ->
+    d_rts d = [rd] -> rt_array rd = Some [mm; nn] -> rt_tree rd = None -> rt_auto rd = true ->
+    gen_routing_info sp c = Ok ri -> emit c ri = Ok n -> chk_C05 n = [] ->
+    ri_xy ri = Some (xb, (yb, (ab, (ox, oy)))) -> att_okb c mm nn G = true ->
+    C09_on n.
+Proof. exact hw_xy_C09. Qed.
+Print Assumptions C09_hw_xy_mesh.
+
+(* on the model alone: the wiring checker's verdict replaced by "links join routers and interfaces" *)
+Theorem C09_model_xy_mesh :
+  forall d g c rd mm nn sp ri n xb yb ab ox oy G,
+    build d = Ok g -> compile d g = Ok c -> d_algo d = XY ->
+    d_rts d = [rd] -> rt_array rd = Some [mm; nn] -> rt_tree rd = None -> rt_auto rd = true ->
+    gen_routing_info sp c = Ok ri -> emit c ri = Ok n -> links_typedb g c = true ->
+    ri_xy ri = Some (xb, (yb, (ab, (ox, oy)))) -> att_okb c mm nn G = true ->
+    C09_on n.
+Proof. exact model_xy_C09. Qed.
+Print Assumptions C09_model_xy_mesh.
+
+(* with the structural hypotheses in the executable form the harness evaluates (request `xy` of the model binary) *)
+Theorem C09_xy_conditions_sound :
+  forall d g c sp ri n xb yb ab ox oy G,
+    build d = Ok g -> compile d g = Ok c -> gen_routing_info sp c = Ok ri -> emit c ri = Ok n -> chk_C05 n = [] ->
+    ri_xy ri = Some (xb, (yb, (ab, (ox, oy)))) ->
+    (exists bs, xy_conditions d G = Ok bs /\ forallb (fun b => b) bs = true) -> C09_on n.
+Proof. exact xy_conditions_C09. Qed.
+Print Assumptions C09_xy_conditions_sound.
+
+(* non-vacuity: on the 2x2 mesh with a West memory row every hypothesis holds, the dependency sets are not empty,
+   and the certified checker agrees with the theorem *)
+Example C09_xy_mesh_nonvacuous :
+  let G := {| gr_m := 2; gr_n := 2;
+              gr_att := [("cluster_ni_0_0", ((0, 0), 4)); ("cluster_ni_0_1", ((0, 1), 4)); ("cluster_ni_1_0", ((1, 0), 4));
+                         ("cluster_ni_1_1", ((1, 1), 4)); ("hbm_ni_0", ((0, 0), 3)); ("hbm_ni_1", ((0, 1), 3))] |} in
+  match xy_conditions (ex_mesh XY) G with Ok bs => forallb (fun b => b) bs && Nat.eqb (length bs) 4 | Err _ => false end = true /\
+  match (do g <- build (ex_mesh XY); do c <- compile (ex_mesh XY) g; do ri <- gen_routing_info sp_nx c; do n <- emit c ri; Ok (g, (c, n))) with
+  | Ok (g, (c, n)) =>
+      links_typedb g c && match chk_C05 n with [] => true | _ => false end && match chk_C09 n with [] => true | _ => false end &&
+      Nat.leb 8 (length (c09_deps n Req)) && Nat.leb 8 (length (c09_deps n Rsp))
+  | Err _ => false
+  end = true.
+Proof. vm_compute. auto. Qed.
